@@ -184,9 +184,19 @@ def run(check, an: Analysis):
         for index, event in enumerate(path.events):
             if event.kind != 'raise' or event.depth != 0:
                 continue
-            text = ast.unparse(event.node.exc)
-            names = _unpack_names(prop.fn)
-            uses_concurrent = names is not None and names[1] in text
+            # what is raised on this path, with the components of what
+            # _collect_exceptions returned in place: `None or X` is X
+            raised = rules.value_expr(path, index, event.node.exc)
+            while isinstance(raised, ast.BoolOp) and isinstance(raised.op, ast.Or):
+                rest = [v for v in raised.values
+                        if not (isinstance(v, ast.Constant) and v.value is None)]
+                raised = rest[0] if rest else ast.Constant(value=None)
+            text = ast.unparse(raised)
+            collected_here = any(e.kind == 'enter' and e.data.get('callee') is not None
+                                 and e.data['callee'].fn is cfn
+                                 for e in path.events[:index])
+            names = (text,) if collected_here else None
+            uses_concurrent = names is not None and 'Concurrent(' in text
             if uses_concurrent:
                 promoted = any(tested(e, ('in', 'exc_type', 'self.PROMOTE_CONCURRENT'), True)
                                for e in path.events[:index])
@@ -202,7 +212,7 @@ def run(check, an: Analysis):
                                path=rules.path_lines(path, index))
             else:
                 check.instance('E', '_propagate:privileged-else', names is not None and
-                               names[0] in text, event.where,
+                               not (isinstance(raised, ast.Constant)), event.where,
                                'otherwise only a privileged child failure replaces the '
                                'body\'s exception', path=rules.path_lines(path, index))
     check.floor('E', 20)
@@ -312,15 +322,17 @@ def _check_collect(check, an: Analysis, collect: Callee):
                 if is_a(atoms, it.var, 'SUPPRESS_CONCURRENT') is not False:
                     collect_ok, bad_collect = False, bad_collect or (path, pos)
                 collected.setdefault(name, []).append((it, pos))
-        if path.kind != 'return' or not isinstance(path.outcome[1], ast.Tuple) or \
-                len(path.outcome[1].elts) != 2:
+        pair = path.outcome[1] if path.kind == 'return' else None
+        if isinstance(pair, ast.Call):
+            # a record (typing.NamedTuple) of the two results is the pair of its fields
+            pair = rules._record_display(pair, cfn) or pair
+        if not isinstance(pair, ast.Tuple) or len(pair.elts) != 2:
             if path.kind == 'return':
                 concurrent_ok = False
             continue
         end = len(path.events)
-        first = rules.value_expr(path, end, path.outcome[1].elts[0])
-        second = rules.value_expr(path, end, path.outcome[1].elts[1],
-                                  keep=tuple(collected))
+        first = rules.value_expr(path, end, pair.elts[0])
+        second = rules.value_expr(path, end, pair.elts[1], keep=tuple(collected))
         none_first = isinstance(first, ast.Constant) and first.value is None
         none_second = isinstance(second, ast.Constant) and second.value is None
         if not none_first:
